@@ -68,6 +68,11 @@ func TestPropDispatch(t *testing.T) {
 			name := nameForModel(t, m)
 			line := fmt.Sprintf("%s %s %s", name, gen.ValueToken(t, "val"), gen.TsToken(t, "ts"))
 			o := m.Dispatch(name)
+			if !o.Blacklisted && o.NewName == "" {
+				// the rewriters reduce this name to nothing: not a metric any more, outside the property's domain
+				rec.Class("excluded:rewritten-name-empty", 1)
+				continue
+			}
 			lines = append(lines, sent{line, o})
 			fields := strings.Fields(line)
 			fwd := o.NewName + " " + fields[1] + " " + fields[2]
@@ -131,8 +136,8 @@ func TestPropDispatch(t *testing.T) {
 			}
 			return sb.String()
 		}
-		if c1.In != int64(nl) || c1.Invalid != 0 {
-			t.Fatalf("in=%d invalid=%d for %d valid lines\n%s", c1.In, c1.Invalid, nl, ctx())
+		if c1.In != int64(len(lines)) || c1.Invalid != 0 {
+			t.Fatalf("in=%d invalid=%d for %d valid lines\n%s", c1.In, c1.Invalid, len(lines), ctx())
 		}
 		if c1.Blacklist != wantBlack {
 			t.Fatalf("blacklist counter moved by %d, reference says %d\n%s", c1.Blacklist, wantBlack, ctx())
